@@ -108,6 +108,23 @@ def install(E):
     E.spec_builtins["tok_off"] = Builtin("tok_off", sp_tok_off)
 
     E.value_types["scope"] = lambda E_, st, name: T.make_scope(E_, st, name)
+
+    def sp_chain_lines(E_, s, args, kw):
+        """sum of .lines over a scope and its modelled ancestors"""
+        sc = args[1]
+        total = z3.IntVal(0)
+        cond = z3.BoolVal(True)
+        for _ in range(4):
+            if isinstance(sc, SOpt):
+                cond = z3.And(cond, z3.Not(bool_term(sc.isnone)))
+                sc = sc.val
+            if not isinstance(sc, Ref):
+                break
+            cell = s.cell(sc)
+            total = total + z3.If(cond, int_term(cell.attrs["lines"]), 0)
+            sc = cell.attrs.get("parent")
+        return [(s, mk_int(total))]
+    E.spec_builtins["chain_lines"] = Builtin("chain_lines", sp_chain_lines)
     # dprint only prints (debug >= 2) -- assumed, reported
     E.models[CTX + "dprint"] = lambda E_, s, a, k: [(s, None)]
 
@@ -190,6 +207,11 @@ def update_contract():
     c.ens(f"implies(not {OT} and isnone(old(self.sub)) and not (old(self.scope.name) == 'ControlStructure' and "
           f"old(self.scope.multiline) is False and old(self.scope.instructions) > 0), self.scope is old(self.scope))",
           "scope_kept_otherwise")
+    # lines are never lost: leaving a scope adds its lines to the parent, so the total over the
+    # chain of enclosing scopes is preserved (this is what makes scope.lines of a Function the
+    # number of lines of its body, C03)
+    c.ens(f"implies(isnone(old(self.sub)), chain_lines(self, self.scope) == old(chain_lines(self, self.scope)))",
+          "lines_of_left_scopes_go_to_the_parent")
     c.modifies = ["self.scope:scope", "self.sub:optscope", "self.arg_pos:opaque"]
     c.mustfail("self.scope is old(self.scope)", "never_changes_scope")
     return c
